@@ -536,6 +536,11 @@ func TestC19(t *testing.T) {
 	}
 
 	f.finishSharded(t, dir, rep, jl, 400)
+
+	if os.Getenv("VERIF_REPLAY") == "" {
+		typedIsolationPhase(t, rep)
+	}
+
 	rep.Assumptions = append(rep.Assumptions, "objects are mutated only through the metadata/spec API (not by writing into the map returned by Raw()); resources delivered inside watch events are observed, never mutated (the property does not list them)")
 	rep.write(t, dir)
 }
